@@ -31,7 +31,11 @@ func paramsFor(bits int) *gabikeys.SystemParameters {
 	if p, ok := gabikeys.DefaultSystemParameters[bits]; ok {
 		return p
 	}
-	base := gabikeys.BaseParameters{LePrime: 120, Lh: 256, Lm: 256, Ln: uint(bits), Lstatzk: 80}
+	// Toy parameter sets must respect the scheme's constraints like the supported ones do:
+	// messages shorter than the group order (Lm < Ln-2), and LmCommit = Lm+Lstatzk+Lh >= 592
+	// because NewProofRandomizers draws the secret-key randomizer with the 1024-bit LmCommit.
+	lm := uint(bits - 8)
+	base := gabikeys.BaseParameters{LePrime: 120, Lh: 256, Lm: lm, Ln: uint(bits), Lstatzk: 336 - lm}
 	return &gabikeys.SystemParameters{BaseParameters: base, DerivedParameters: gabikeys.MakeDerivedParameters(base)}
 }
 
